@@ -181,6 +181,11 @@ def cases(tier):
             cs.append(Case(f"public:{sk}:sb{int(sb)}", h_public, dict(skel=sk, size_biased=sb)))
     for sk in ("diploid_cherry", "diploid_two_tree", "diploid_missing"):
         cs.append(Case(f"blocks:{sk}", h_blocks, dict(skel=sk)))
+    if tier == "thorough":      # msprime ARGs (4 samples, a few trees), family chosen by VERIF_SEED
+        for sk in SK.random_names(6):
+            for sb in (False, True):
+                cs.append(Case(f"count:{sk}:sb{int(sb)}", h_count, dict(skel=sk, size_biased=sb), weight=20))
+                cs.append(Case(f"public:{sk}:sb{int(sb)}", h_public, dict(skel=sk, size_biased=sb), weight=20))
     return cs
 
 
